@@ -1410,8 +1410,14 @@ impl<'a> World<'a> {
                 }
                 // F4: once faults have stopped, one learning commit restores a loadable
                 // store that holds the choice.
+                // (judged on what a new context sees, not on whether a write was observed: a
+                // context that has stopped saving altogether fails here too)
                 let complete = outcomes.iter().any(|o| matches!(o, WriteOutcome::Complete));
-                if complete && healthy_before && self.disk.healthy() && host_alive {
+                let acknowledged_choice = tracks_learning && typed_ok && !ambiguous && learning && chosen.is_some();
+                if (complete || acknowledged_choice) && healthy_before && self.disk.healthy() && host_alive {
+                    if !complete {
+                        self.stats.bump("probe.learning_commit_on_a_healthy_disk_without_a_save");
+                    }
                     self.judge_recovery(h, &typed, typed_ok && !ambiguous && learning, chosen.as_deref(), &what)?;
                 }
             }
